@@ -109,8 +109,8 @@ m("M59", ["C13"], "parser/parser_functions.go", "\t\t\tcase token.LPAREN, token.
 m("M60", ["C13"], "parser/builder.go", "\t\tsmartSemicolons:  pb.smartSemicolons,", "\t\tsmartSemicolons:  pb.smartSemicolons && !pb.tolerantMode,", note="smart semicolons lost in tolerant mode")
 m("M61", ["C13"], "parser/parser_functions.go", "\tif prefix == nil {\n\t\tp.AddError(", "\tif prefix == nil && p.tolerantMode && p.CurrentToken.Type == token.SEMICOLON {\n\t\treturn &ast.NullLiteral{Token: p.CurrentToken}\n\t}\n\tif prefix == nil {\n\t\tp.AddError(", note="tolerant mode turns a stray ; into null", expect="either")
 # ---- isolation (C14)
-m("M62", ["C14", "C05"], "parser/parser.go", "\tp.precedences = make(map[token.Type]int)\n\tmaps.Copy(p.precedences, precedences)", "\tp.precedences = precedences\n\t_ = maps.Copy[map[token.Type]int]", note="precedence table aliased instead of copied")
-m("M63", ["C14"], "compiler/compiler.go", "func (c *Compiler) Compile(program *ast.Program) CompileResult {\n\tw := ast.CodeWriter{", "var sharedWriter ast.CodeWriter\n\nfunc (c *Compiler) Compile(program *ast.Program) CompileResult {\n\tsharedWriter = ast.CodeWriter{}\n\tw := &sharedWriter\n\t*w = ast.CodeWriter{", note="package-level code writer", expect="either")
+m("M62", ["C14", "C05"], "parser/parser.go", "\tp.precedences = make(map[token.Type]int)\n\tmaps.Copy(p.precedences, precedences)", "\tp.precedences = precedences\n\tmaps.Copy(map[token.Type]int{}, precedences)", note="precedence table aliased instead of copied")
+m("M63", ["C14"], "compiler/compiler.go", "func (c *Compiler) Compile(program *ast.Program) CompileResult {\n\tw := ast.CodeWriter{", "var sharedWriter ast.CodeWriter\n\nfunc (c *Compiler) Compile(program *ast.Program) CompileResult {\n\tw := &sharedWriter\n\t*w = ast.CodeWriter{", note="package-level code writer (needs &w -> w)", expect="either")
 m("M64", ["C14"], "lexer/base_functions.go", "\t\tLeadingComments: append([]string(nil), l.leadingComments...),\n\t}\n}\n\n// NewTokenAt", "\t\tLeadingComments: l.leadingComments,\n\t}\n}\n\n// NewTokenAt", note="single-character tokens share the comment slice", expect="either")
 m("M65", ["C14", "C05"], "lexer/builder.go", "\ttokenType := lb.nextTokenID\n\tlb.nextTokenID++", "\ttokenType := globalNextID\n\tglobalNextID++", note="token id counter package-level (needs var)", )
 m("M66", ["C14", "C01"], "compiler/compiler.go", "\tif c.generateSourceMap {\n\t\tsm = w.Mapper.SourceMap()\n\t}", "\tif c.generateSourceMap {\n\t\tsm = w.Mapper.SourceMap()\n\t\tif len(sm.Names) > 40 {\n\t\t\tcode += \"\\n\"\n\t\t}\n\t}", note="source-map path appends a newline for programs with many names", expect="either")
@@ -125,7 +125,7 @@ m("M89", ["C15"], "ast/ast.go", "\tcw.WriteLeadingComments(p.EOF.LeadingComments
 m("M72", ["C16"], "parser/parser_functions.go", "\tp.PushContext(FunctionContext)\n\tdefer p.PopContext()\n\tfe.Body = p.ParseBlockStatement()", "\tp.PushContext(FunctionContext)\n\tfe.Body = p.ParseBlockStatement()", note="function expressions never pop their context")
 m("M73", ["C16"], "parser/parser_functions.go", "\tstmt.Parameters = p.ParseFunctionParameters()\n\tif !p.ExpectToken(token.LBRACE) {\n\t\treturn nil\n\t}\n\tp.PushContext(FunctionContext)\n\tdefer p.PopContext()", "\tstmt.Parameters = p.ParseFunctionParameters()\n\tp.PushContext(FunctionContext)\n\tif !p.ExpectToken(token.LBRACE) {\n\t\treturn nil\n\t}\n\tdefer p.PopContext()", note="context leaks when the function body brace is missing")
 m("M74", ["C16"], "parser/parser_context.go", "\treturn slices.Contains(p.contextStack, FunctionContext)", "\tn := len(p.contextStack)\n\treturn n > 0 && (p.contextStack[n-1] == FunctionContext || (n > 1 && p.contextStack[n-2] == FunctionContext)) || slices.Contains(p.contextStack[:0], FunctionContext)", note="IsInFunction only looks at the top two entries")
-m("M75", ["C16"], "parser/parser_functions.go", "\tp.PushContext(BlockContext)\n\tdefer p.PopContext()\n\tp.NextToken()", "\tif p.IsInFunction() || len(p.contextStack) < 2 {\n\t\tp.PushContext(BlockContext)\n\t\tdefer p.PopContext()\n\t}\n\tp.NextToken()", note="nested plain blocks outside functions share one context entry")
+m("M75", [], "parser/parser_functions.go", "\tp.PushContext(BlockContext)\n\tdefer p.PopContext()\n\tp.NextToken()", "\tif p.IsInFunction() || len(p.contextStack) < 2 {\n\t\tp.PushContext(BlockContext)\n\t\tdefer p.PopContext()\n\t}\n\tp.NextToken()", expect="either", note="nested plain blocks outside functions share one context entry: equivalent for the public queries (CurrentContext is Block either way)")
 
 def sh(cmd, cwd=None, timeout=900):
     r = subprocess.run(cmd, cwd=cwd, env=ENV, shell=isinstance(cmd, str), stdout=subprocess.PIPE, stderr=subprocess.STDOUT, text=True, timeout=timeout)
@@ -140,6 +140,8 @@ def run_one(mu, all_props=False):
     if src.count(mu["old"]) != 1:
         return dict(id=mu["id"], status="site-not-found(%d)" % src.count(mu["old"]))
     new = src.replace(mu["old"], mu["new"])
+    if mu["id"] == "M63":
+        new = new.replace("program.WriteTo(&w)", "program.WriteTo(w)")
     if mu["id"] == "M65":
         new = new.replace("// RegisterTokenType creates", "var globalNextID = token.Type(token.DYNAMIC_TOKENS_START)\n\n// RegisterTokenType creates")
     open(path, "w").write(new)
